@@ -123,6 +123,14 @@ class IntStr(_Sym):
         self.v = v
 
 
+class DigStr(_Sym):
+    """a string of exactly `width` ASCII digits (leading zeros kept) denoting the IntV v, 0 <= v < 10**width;
+    models what re.Match.group returns for a fixed-length digit group"""
+
+    def __init__(self, v: IntV, width: int):
+        self.v, self.width = v, int(width)
+
+
 class SymFmt(_Sym):
     """a formatted string with symbolic holes: list of str / symbolic values, in order"""
 
@@ -346,7 +354,7 @@ class Evaluator:
         for v, c in self.ev(node.value, env, cons):
             if isinstance(v, RaiseV):
                 out.append((v, c))
-            elif _sym(v) or isinstance(v, (DecStr, IntStr)):
+            elif _sym(v) or isinstance(v, (DecStr, IntStr, DigStr)):
                 out.append((("boundmethod", v, node.attr), c))
             else:
                 try:
@@ -367,6 +375,17 @@ class Evaluator:
                     continue
                 if _sym(i):
                     raise Unsupported("symbolic subscript")
+                if isinstance(v, DigStr):
+                    if not (isinstance(i, slice) and i.start in (None, 0) and i.step in (None, 1) and isinstance(i.stop, int) and i.stop >= 0):
+                        raise Unsupported("subscript of a digit string other than [:n]")
+                    if i.stop >= v.width:
+                        out.append((v, c2))
+                    else:
+                        cut = 10 ** (v.width - i.stop)
+                        q = self.ctx.fresh("dq")
+                        out.append((DigStr(IntV(q, v.v.lo // cut, v.v.hi // cut), i.stop),
+                                    c2 + [q * cut <= v.v.t, (q + 1) * cut > v.v.t]))
+                    continue
                 try:
                     out.append((v[i], c2))
                 except (KeyError, IndexError, TypeError) as e:
@@ -408,7 +427,7 @@ class Evaluator:
                     out.append((z3.Not(v), c))
                 elif _sym(v):
                     out.append((to_rat(v).P == 0, c))
-                elif isinstance(v, (DecStr, IntStr)):
+                elif isinstance(v, (DecStr, IntStr, DigStr)):
                     out.append((False, c))
                 else:
                     out.append((not v, c))
@@ -432,6 +451,11 @@ class Evaluator:
         return out
 
     def binop(self, op, a, b, cons):
+        if isinstance(op, ast.Add) and (isinstance(a, (IntStr, DigStr)) or isinstance(b, (IntStr, DigStr))) and \
+                isinstance(a, (IntStr, DigStr, str, SymFmt)) and isinstance(b, (IntStr, DigStr, str, SymFmt)):
+            pa = a.parts if isinstance(a, SymFmt) else [a]
+            pb = b.parts if isinstance(b, SymFmt) else [b]
+            return [(SymFmt(pa + pb), cons)]
         if isinstance(op, ast.Add) and (isinstance(a, SymFmt) or isinstance(b, SymFmt)):
             return [(a + b if isinstance(a, SymFmt) else b.__radd__(a), cons)]
         if not _sym(a) and not _sym(b):
@@ -609,7 +633,7 @@ class Evaluator:
                 r = to_rat(v)
                 out.append((True, c + [r.P != 0]))
                 out.append((False, c + [r.P == 0]))
-            elif isinstance(v, (DecStr, IntStr)):
+            elif isinstance(v, (DecStr, IntStr, DigStr)):
                 out.append((True, c))
             else:
                 out.append((bool(v), c))
@@ -655,12 +679,18 @@ class Evaluator:
                 return r
         if isinstance(f, tuple) and f and f[0] == "boundmethod":
             _, obj, name = f
+            if isinstance(obj, DigStr) and name == "ljust" and len(args) == 2 and args[1] == "0" and isinstance(args[0], int):
+                if args[0] <= obj.width:
+                    return [(obj, cons)]
+                m = 10 ** (args[0] - obj.width)
+                return [(DigStr(IntV(obj.v.t * m, obj.v.lo * m, obj.v.hi * m), args[0]), cons)]
             key = (type(obj).__name__, name)
             if key in self.stubs:
                 return self.stubs[key](self, obj, args, kws, cons)
             raise Unsupported(f"method {name} on {type(obj).__name__}")
-        symbolic = any(_sym(a) or isinstance(a, (DecStr, IntStr)) for a in args) or \
-            any(_sym(a) or isinstance(a, (DecStr, IntStr)) for a in kws.values())
+        symbolic = any(_sym(a) or isinstance(a, (DecStr, IntStr, DigStr)) for a in args) or \
+            any(_sym(a) or isinstance(a, (DecStr, IntStr, DigStr)) for a in kws.values()) or \
+            (f in (int, float, Fr) and len(args) == 1 and isinstance(args[0], SymFmt))
         deep = symbolic or any(_has_sym(a) for a in args) or any(_has_sym(a) for a in kws.values()) or \
             _has_sym(getattr(f, "__self__", None))
         target = self._inline_target(f)
@@ -681,8 +711,18 @@ class Evaluator:
                 raise
             except Exception as e:
                 return [(RaiseV(type(e), str(e)), cons)]
+        if f in (int, float, Fr) and len(args) == 1 and isinstance(args[0], SymFmt):
+            ps = [x for x in args[0].parts if x != ""]
+            if len(ps) == 3 and isinstance(ps[0], (IntStr, DigStr)) and ps[1] == "." and isinstance(ps[2], DigStr) and f is not int:
+                k = ps[2].width
+                whole, frac = ps[0].v, ps[2].v
+                pv = IntV(whole.t * 10 ** k + frac.t, whole.lo * 10 ** k + frac.lo, whole.hi * 10 ** k + frac.hi)
+                return self.call(f, [DecStr(pv, k)], {}, cons)
+            raise Unsupported("numeric conversion of a formatted string")
         if f is int and len(args) == 1:
             a = args[0]
+            if isinstance(a, DigStr):
+                return [(a.v, cons)]
             if isinstance(a, IntStr):
                 return [(a.v, cons)]
             if isinstance(a, IntV):
@@ -700,7 +740,7 @@ class Evaluator:
             if isinstance(a, DecStr):
                 r = RatV(a.p.t, 10 ** a.k, Fr(a.p.lo, 10 ** a.k), Fr(a.p.hi, 10 ** a.k))
                 return [(d, cons + c) for c, d in rounds(ctx, r)]
-            if isinstance(a, IntStr):
+            if isinstance(a, (IntStr, DigStr)):
                 a = a.v
             if isinstance(a, IntV):
                 if max(abs(a.lo), abs(a.hi)) >= 2 ** 53:
@@ -914,7 +954,7 @@ class Evaluator:
                 if isinstance(it, RaiseV):
                     out.append(Outcome("raise", it, c, e))
                     continue
-                if _sym(it) or isinstance(it, (DecStr, IntStr)):
+                if _sym(it) or isinstance(it, (DecStr, IntStr, DigStr)):
                     raise Unsupported("iteration over a symbolic value")
                 items = list(it)
                 states = [(e, c)]
